@@ -671,3 +671,8 @@ where
         self.mac.clone()
     }
 }
+
+// verification hook (guard: cfg(kani) / --cfg opaque_ke_verif); inert in every ordinary build
+#[cfg(any(kani, opaque_ke_verif))]
+#[path = "/verif/harness/incrate/child_tripledh.rs"]
+pub(crate) mod verif_kani_tripledh;
